@@ -89,5 +89,17 @@ Proof.
   - rewrite am_get_set_other by assumption. now exists s.
 Qed.
 
-Lemma select_some : forall st infl all zs, select st infl all (Some zs) = zs.
+Lemma select_some : forall st op infl all zs,
+  bypass st op = false -> select st op infl all (Some zs) = zs.
+Proof. intros st op infl all zs H. unfold select. now rewrite H. Qed.
+
+Lemma select_bypass : forall st op infl all r,
+  bypass st op = true -> select st op infl all r = all.
+Proof. intros st op infl all r H. unfold select. now rewrite H. Qed.
+
+Lemma select_none_op_all : forall st op infl all,
+  bypass st op = false -> none_op_all st op = true -> select st op infl all None = all.
+Proof. intros st op infl all H1 H2. unfold select. now rewrite H1, H2. Qed.
+
+Lemma bypass_eq : forall st, bypass st OEq = false.
 Proof. reflexivity. Qed.
